@@ -66,6 +66,19 @@ struct Probe: public QpMcSimplexDecomp<SynthMatrix>{
 	std::size_t aV() const{ return this->m_activeVar; }
 	void killex(std::size_t e){ std::size_t k = this->m_examples[e].active; for(std::size_t t = 0; t != k; ++t) this->deactivateVariable(this->m_examples[e].avar[this->m_examples[e].active - 1]); }
 
+	// (original example index, p) -> (alpha, gradient, active, varsum of the example) — for the shrink oracle
+	struct VarInfo{ double a, g, vs; bool active; };
+	std::vector<VarInfo> snapshot() const{
+		std::size_t P = this->m_cardP;
+		std::vector<VarInfo> r(this->m_numVariables);
+		for(std::size_t v = 0; v != this->m_numVariables; ++v){
+			Variable const& x = this->m_variables[v];
+			Example const& e = this->m_examples[x.example];
+			VarInfo vi; vi.a = this->m_alpha(v); vi.g = this->m_gradient(v); vi.vs = e.varsum; vi.active = v < this->m_activeVar;
+			r[e.index * P + x.p] = vi;
+		}
+		return r;
+	}
 	std::string dump() const{
 		std::ostringstream os;
 		std::size_t nv = this->m_numVariables, P = this->m_cardP;
@@ -226,7 +239,21 @@ bool c16SimplexOp(std::vector<std::string> const& t, std::string& out){
 	}else if(op == "xunshrink" && a.empty()){
 		p.unshrink();
 	}else if(op == "xshrink" && a.size() == 2){
+		std::vector<Probe::VarInfo> before = p.snapshot();
+		bool wasUnshrinked = p.dump().find(" un=1 ") != std::string::npos;
 		bool r = p.shrink(shiftVal(a[0], a[1]));
+		// oracle: shrink must not deactivate a variable that violates the KKT conditions (one that can be decreased,
+		// or increased while its example is strictly inside the simplex) — the solve loop relies on it: it unshrinks,
+		// sees checkKKT() >= eps, shrinks again and expects the next selection to see the violator.
+		// (skipped when this call unshrinked first: then the gradients of re-activated variables were recomputed)
+		std::vector<Probe::VarInfo> after = p.snapshot();
+		bool reUnshrinked = !wasUnshrinked && p.dump().find(" un=1 ") != std::string::npos;
+		if(!reUnshrinked)
+			for(std::size_t k = 0; k != before.size(); ++k)
+				if(before[k].active && !after[k].active){
+					if(before[k].a > 0.0 && before[k].g < 0.0){ stopOrc += " !oracle shrink-deactivated-violator"; break; }
+					if(before[k].vs < S.C && before[k].g > 0.0){ stopOrc += " !oracle shrink-deactivated-violator"; break; }
+				}
 		pre = std::string("ret=") + (r ? "1 " : "0 ");
 	}else if(op == "xadddelta"){
 		if(a.size() != S.n * S.P){ out = "bad-op"; return true; }
